@@ -315,14 +315,21 @@ def make_pomdp(view, ctx=None):
 
 
 # ------------------------------------------------------------------ graph spec
-def gen_graph_spec(rng, kinds=KEY_KINDS, max_states=8):
-    n = rng.randint(1, max_states)
+def gen_graph_spec(rng, kinds=KEY_KINDS, max_states=8, big=False):
+    if big:
+        # larger, denser graphs with a wider cost range: many queued nodes get revised by cheaper routes
+        n = rng.randint(15, 60)
+        nA = rng.randint(4, 6)
+        costs = (0, 1, 2, 3, 4, 5, 6, 7, 8, 9)
+    else:
+        n = rng.randint(1, max_states)
+        nA = rng.randint(1, 3)
+        costs = (0, 1, 1, 2, 3)
     goals = sorted(rng.sample(range(n), rng.randint(0, min(2, n))))
-    nA = rng.randint(1, 3)
     edges = []
     for s in range(n):
-        for a in sorted(rng.sample(range(nA), rng.randint(1, nA))):
-            edges.append([s, a, rng.randrange(n), rng.choice((0, 1, 1, 2, 3))])
+        for a in sorted(rng.sample(range(nA), rng.randint(1 if not big else 3, nA))):
+            edges.append([s, a, rng.randrange(n), rng.choice(costs)])
     return dict(kind=rng.choice(kinds), n=n, nA=nA, goals=goals, edges=edges, src=rng.randrange(n))
 
 
@@ -384,3 +391,25 @@ def make_graph_mdp(view, rep):
                 return kw['is_absorbing'](s)
         return G()
     raise HarnessError(rep)
+
+
+def sibling_mdp_spec(spec, rng_int):
+    """Fault F5 (object reuse): a sibling problem with the same state and action keys
+    but one more absorbing state ("the goal moved"); proper-ness is preserved.
+    Returns None when every state is already absorbing."""
+    import copy
+    absb = set(spec['absorbing'])
+    N = spec.get('N', spec['n'] + len(spec['absorbing']))
+    cand = [s for s in range(N) if s not in absb]
+    if not cand:
+        return None
+    x = cand[rng_int % len(cand)]
+    sp = copy.deepcopy(spec)
+    sp['absorbing'] = sorted(absb | {x})
+    sp['N'] = N
+    # like every absorbing state of the generated workloads, x only loops on itself
+    # (msdm's matrix views index the successors of absorbing states too)
+    for tr in sp['trans']:
+        if tr[0] == x:
+            tr[2] = [[x, 8, 0.0]]
+    return sp
